@@ -31,6 +31,7 @@ func runC03(c *Ctx) {
 	c.Rule("C03.R5", "timers armed on every end-of-request path, global timeout never zero, timers stopped before recycle", 8)
 	c.Rule("C03.R6", "every acting phase re-checks through processError", 10)
 	c.Rule("C03.R7", "wake-up token: confined one-slot channel, non-blocking send, drained before every re-entry of the phase machine", 5)
+	c.Rule("C03.R8", "the retry-in-preparation flag is consumed where the retry decision is taken; single setter", 2)
 	c.NotDecided = append(c.NotDecided, "bounded completion time itself (liveness)", "that cleanStream is eventually reached for every request", "behaviour under concrete interleavings")
 	c.Assumptions = append(c.Assumptions, "sync/atomic semantics", "utils.Timer fires its callback at most once after Stop returns false")
 
@@ -377,6 +378,7 @@ func runC03(c *Ctx) {
 		c.Unresolved("C03.R6", fmt.Sprintf("phase actions in receive (found %d)", n))
 	}
 	c03Notify(c, pkg)
+	c03RetryFlag(c, pkg)
 }
 
 // c03Notify (R7): the wake-up token of the phase machine.
@@ -542,4 +544,57 @@ func guardedNotCASFail(in ssa.Instruction, field string) bool {
 		}
 	}
 	return false
+}
+
+// c03RetryFlag (R8): the "retry in preparation" flag is consumed where the retry decision is taken.
+// upstreamRequest.setupRetry makes the abandoned try deaf (OnResetStream / receive* return silently while it is set).
+// It is set when a retry is granted and must be cleared in the same step in which processError turns it into the Retry
+// phase; if it stays set across the retry interval and host selection, a global timeout that fires in that window is
+// swallowed after it has already won upstreamResponseReceived - the client gets no reply at all.
+func c03RetryFlag(c *Ctx, pkg string) {
+	fn := c.M(pkg, "downStream", "processError")
+	if fn == nil {
+		c.Unresolved("C03.R8", "downStream.processError")
+		return
+	}
+	fk := funcKey(fn)
+	n := 0
+	for _, in := range instrsWhere(fn, isReturn) {
+		// returns taken on the edge where setupRetry was read true
+		gated := false
+		for _, g := range guardsAt(in.Block()) {
+			if _, f, _, ok := loadedField(g.Cond); ok && f == "setupRetry" && g.True {
+				gated = true
+			}
+		}
+		if !gated {
+			continue
+		}
+		n++
+		cleared := false
+		for _, st := range storesToField(fn, ".upstreamRequest", "setupRetry", false) {
+			if b, ok := constBool(st.Val); ok && !b && instrDominates(st, in) {
+				for _, g := range guardsAt(st.Block()) {
+					if _, f, _, ok := loadedField(g.Cond); ok && f == "setupRetry" && g.True {
+						cleared = true
+					}
+				}
+			}
+		}
+		c.Check("C03.R8", fmt.Sprintf("%s:retry-flag-consumed#%d", fk, n), in.Pos(), cleared, "setupRetry is cleared on the edge that turns it into the Retry phase", "processError acts on setupRetry without clearing it: the abandoned try stays deaf during the retry interval and host selection, and a timeout or reset that fires in that window is swallowed after it has taken the response token - the request ends without any reply")
+	}
+	if n < 1 {
+		c.Unresolved("C03.R8", "Retry return gated by setupRetry in processError")
+	}
+	// single setter: only setupRetry() raises the flag, and it does so behind the CAS that gives the response token back
+	var setters []string
+	for _, f := range c.PkgFuncs(pkg) {
+		for _, st := range storesToField(f, ".upstreamRequest", "setupRetry", false) {
+			if b, ok := constBool(st.Val); ok && b {
+				setters = append(setters, f.Name())
+			}
+		}
+	}
+	sort.Strings(setters)
+	c.Check("C03.R8", "pkg/proxy.upstreamRequest.setupRetry:single-setter", token.NoPos, len(setters) == 1 && setters[0] == "setupRetry", "only downStream.setupRetry raises the flag", "setupRetry is raised by "+strings.Join(setters, ","))
 }
